@@ -88,7 +88,7 @@ def run(ctx):
     cdir = os.path.join(vlib.VERIF, "corpus", PROP)
     if os.path.isdir(cdir):
         for fn in sorted(os.listdir(cdir)):
-            if fn.endswith(".json"):
+            if fn.endswith(".json") and not fn.startswith("word_"):
                 c = json.load(open(os.path.join(cdir, fn)))
                 cases.append(c["case"]); meta.append((c.get("expect"), "corpus:" + fn))
     ncorpus = len(cases)
